@@ -222,3 +222,85 @@ pub const ASSUME: &[&str] = &[
     "for a.b indistinguishable from 0 the choice between the two equally long arcs is not judged",
     "a slack of 1e-8 rad is granted on the 'between the endpoints' inequalities (the property itself grants 1e-5 to slerp near parallel inputs)",
 ];
+
+
+// ---------------------------------------------------------------- native f64 / f32: endpoints at every separation
+
+/// The interval engine cannot follow pairs closer than a few ulps (the code's
+/// own comparisons become ambiguous there), so the end-point and unit-length
+/// clauses are also monitored on the real types for arcs log-uniform between
+/// 1e-12 rad and pi: r(0) = a and r(1) = +-b within 1e-12 (f64) / 1e-5 (f32),
+/// |r| = 1 within the same bound, for nlerp and slerp.
+pub fn native(cfg: &cgv_core::fw::RunCfg, extra: &mut cgv_core::fw::Extra) {
+    use cgmath::{Rad, Rotation3, Vector3};
+    use serde_json::json;
+    let n = if cfg.tier == Tier::Quick { 4000 } else { 300_000 };
+    let mut evals = 0u64;
+    let mut seen = std::collections::HashSet::new();
+    let mut worst = [0f64; 2];
+    macro_rules! run {
+        ($T:ty, $tag:expr, $tol:expr, $slot:expr, $min_exp:expr) => {{
+            for i in 0..n {
+                let mut rng = Rng::for_case(cfg.seed, concat!("c14_native_", $tag), i);
+                let a = Quaternion::new(rng.uniform(-1.0, 1.0), rng.uniform(-1.0, 1.0), rng.uniform(-1.0, 1.0), rng.uniform(-1.0, 1.0));
+                let ax = Vector3::new(rng.uniform(-1.0, 1.0), rng.uniform(-1.0, 1.0), rng.uniform(-1.0, 1.0));
+                if a.magnitude2() < 0.01 || ax.magnitude2() < 0.01 {
+                    continue;
+                }
+                let a: Quaternion<$T> = a.normalize().cast().unwrap();
+                let a = a.normalize();
+                let ax: Vector3<$T> = ax.normalize().cast().unwrap();
+                // arc between a and b on the 3-sphere = half the rotation angle of g
+                let arc = 10f64.powf(rng.uniform($min_exp, 0.49));
+                let g = Quaternion::from_axis_angle(ax.normalize(), Rad((2.0 * arc) as $T));
+                let b = (a * g).normalize();
+                let b = if rng.bool() { -b } else { b };
+                let bp = if a.dot(b) < 0.0 { -b } else { b };
+                evals += 1;
+                seen.insert(arc.to_bits());
+                let r = cgv_core::fw::catch(|| {
+                    let mut w = 0f64;
+                    let d = |p: Quaternion<$T>, q: Quaternion<$T>| (p - q).magnitude() as f64;
+                    for slerp in [false, true] {
+                        let f = |t: $T| if slerp { a.slerp(b, t) } else { a.nlerp(b, t) };
+                        w = w.max(d(f(0.0), a)).max(d(f(1.0), bp));
+                        for t in [0.0, 0.25, 0.5, 1.0] {
+                            w = w.max((f(t).magnitude() as f64 - 1.0).abs());
+                        }
+                        // half way: equidistant from both ends
+                        let h = f(0.5);
+                        w = w.max((d(h, a) - d(h, bp)).abs());
+                    }
+                    w
+                });
+                match r {
+                    Err(p) => {
+                        extra.violations.push((format!("native_endpoints_{}", $tag), format!("unexpected panic: {p}"), json!({"index": i})));
+                        break;
+                    }
+                    Ok(w) => {
+                        worst[$slot] = worst[$slot].max(w);
+                        if !(w <= $tol) {
+                            extra.violations.push((
+                                format!("native_endpoints_{}", $tag),
+                                format!("nlerp/slerp end point, unit length or midpoint off by {w:e} (tolerance {:e}) for unit quaternions {arc:e} rad apart", $tol),
+                                json!({"arc": arc, "a": [a.s as f64, a.v.x as f64, a.v.y as f64, a.v.z as f64], "index": i}),
+                            ));
+                            break;
+                        }
+                    }
+                }
+            }
+        }};
+    }
+    run!(f64, "f64", 1e-12, 0, -12.0);
+    run!(f32, "f32", 1e-5, 1, -6.0);
+    extra.evaluations += evals;
+    extra.distinct_nontrivial += seen.len() as u64;
+    extra.samples.push(json!({"clause": "native_endpoints", "example": "a random unit, b = a*g with g a rotation by 2*arc, arc = 3e-9 rad: nlerp(a,b,1) = +-b, slerp(a,b,0) = a, |.| = 1, midpoint equidistant"}));
+    extra.sections.insert(
+        "native_endpoints".into(),
+        json!({"cases": evals, "arcs": "log-uniform 1e-12..3 rad (f64), 1e-6..3 rad (f32), both signs of the dot product",
+               "worst_f64": worst[0], "tolerance_f64": 1e-12, "worst_f32": worst[1], "tolerance_f32": 1e-5}),
+    );
+}
